@@ -204,6 +204,13 @@ fn gen_pattern(u: &mut Unstructured, kind: Kind, v: Inst, off: i32) -> arbitrary
             }
         } else if is_var(sym, width) || zone5 || u.coin(3, 4)? {
             toks.push(sep(u, true, zone5)?);
+            // separators made of two tokens: unquoted text followed by quoted text (which may begin
+            // with the same character, e.g. a space) and the other way round
+            match toks.last() {
+                Some(Tok::Lit(_)) if u.coin(1, 5)? => toks.push(Tok::Quoted((*u.choose(&[" at ", " ", "at", " a", "T ", "  ", "-", " - "])?).to_string())),
+                Some(Tok::Quoted(_)) if u.coin(1, 6)? => toks.push(Tok::Lit((*u.choose(&[" ", "-", "  ", ", ", "/"])?).to_string())),
+                _ => {}
+            }
         }
     }
     Ok(toks)
